@@ -132,7 +132,7 @@ def run(tier, seed):
     rng = random.Random(seed)
     quick = tier == "quick"
     B, S = (2, 2) if quick else (3, 3)
-    nrand, depth, budget = (700, 3, 9) if quick else (3000, 4, 14)
+    nrand, depth, budget = (400, 3, 9) if quick else (3000, 4, 14)
     extras = families(B, S)
     nfam = len(extras)
     extras += random_programs(rng, nrand, depth, budget)
@@ -142,6 +142,8 @@ def run(tier, seed):
         if k not in seenp:
             seenp.add(k)
             ex.append(p)
+    import time
+    phase, t0 = {}, time.time()
     wd = lib.workdir("C42", "gen")
     (wd / "extra.json").write_text(json.dumps(ex))
     kinds = "{" + ",".join(f'"{k}"' for k in KINDS) + "}"
@@ -153,6 +155,7 @@ def run(tier, seed):
     if g.invariant_violated:
         raise MachineryError(f"the queuing MODEL violates {g.invariant_violated} (specification error)\n" + g.out[-2500:])
     lib.require_ok(g, "QCapGen")
+    phase["tlc_generate_s"], t0 = round(time.time() - t0, 1), time.time()
     groups = collections.OrderedDict()
     for line in g.json_lines:
         groups.setdefault((json.dumps(line["prog"], sort_keys=True), line["flav"]), []).append(line)
@@ -176,7 +179,7 @@ def run(tier, seed):
 
     # every (other) program also as a source file with native control flow, for autograph
     items = [(idx, vs) for idx, (_, vs) in enumerate(groups.items()) if not vs[0]["tape"]["err"]]
-    agset = {idx for n, (idx, vs) in enumerate(items) if not quick or n % 2 == 0}
+    agset = {idx for n, (idx, vs) in enumerate(items) if not quick or n % 3 == 0}
     srcmod = qcap.write_module(lib.workdir("C42", "src") / "c42_programs.py",
                                [(f"p{idx}", vs[0]["prog"], vs[0]["flav"], idx % 2 == 1) for idx, vs in items if idx in agset])
     for idx, ((pj, flav), vs) in enumerate(groups.items()):
@@ -257,6 +260,7 @@ def run(tier, seed):
             if len(samples) < 3 and len(f) >= 4 and len(pj) < 600:
                 samples.append({"program": prog, "flavour": flav, "expected_tape": exps[0], "returned": erets})
 
+    phase["replay_s"], t0 = round(time.time() - t0, 1), time.time()
     # ---------------------------------------------------------------- negative controls of the comparator
     neg_tot = neg_rej = 0
     for prog, flav, v, exp in good[:: max(1, len(good) // 30)]:
@@ -284,6 +288,7 @@ def run(tier, seed):
 
     # ---------------------------------------------------------------- transform through its plxpr implementation (decompose)
     relcov = transform_part(tier, rng, good, report)
+    phase["transform_rel_s"] = round(time.time() - t0, 1)
     if not viol:
         missing = [f for f in ("for", "while", "cond", "mcond", "adjfn", "ctrlfn", "meas", "U", "P") if feats[f] < 10]
         if missing or st["returned_values_compared"] < 50 or st["capture_subroutine_calls"] < 10 or relcov["rel_outputs_exact"] < 20:
@@ -298,7 +303,7 @@ def run(tier, seed):
                      "states": g.distinct, **consts},
            "bounds": {"exhaustive_max_nodes": consts["MaxSize"], "nesting": 2, "flavours": consts["NFlav"], "loop_bound_box": B, "max_abs_step": S,
                       "family_programs": nfam, "random_programs": nrand, "random_depth": depth},
-           "programs": len(groups), "behaviours_emitted": len(g.json_lines), "features": dict(feats), "violating_programs_by_clause": dict(nkey),
+           "phase_wall_s": phase, "programs": len(groups), "behaviours_emitted": len(g.json_lines), "features": dict(feats), "violating_programs_by_clause": dict(nkey),
            "negative_controls": neg_tot + relcov["rel_negative_controls"], "negative_controls_rejected": neg_rej + relcov["rel_negative_controls_rejected"],
            **dict(st), **relcov}
     return CheckResult(coverage=cov, violations=viol, assumptions=[
